@@ -41,6 +41,7 @@ type truthFile struct {
 	mustCollect bool
 	compilable  bool
 	oversize    bool
+	either      bool // may be analysed completely or reported with an error (both satisfy the property)
 	lines       []int // physical lines of functions / methods / function literals with bodies
 	funcs       []truthFunc
 }
@@ -168,6 +169,16 @@ func getC16Tree(seed uint64) (*c16Tree, error) {
 	if err := add("odd/test.go", small("odd", "PlainTest"), true, true); err != nil {
 		return nil, err
 	}
+	// files the loader attaches to no package on this platform: they are part of
+	// the target, so each is either analysed or reported with an error
+	if err := add("odd/conn_windows.go", small("odd", "WindowsOnly"), true, true); err != nil {
+		return nil, err
+	}
+	c.files["odd/conn_windows.go"].either = true
+	if err := add("odd/gen_tool.go", "//go:build ignore\n\n"+small("main", "generatorHelper")+"\nfunc main() { _ = generatorHelper(1) }\n", true, true); err != nil {
+		return nil, err
+	}
+	c.files["odd/gen_tool.go"].either = true
 	if err := add(".hidden/h.go", small("hidden", "Hidden"), false, true); err != nil {
 		return nil, err
 	}
@@ -393,8 +404,11 @@ func runC16(t *vs.Tape, cfg map[string]string) (res vs.Result) {
 				continue
 			}
 			skipped := faultedFile[rel] != "" || underFaultedDir(rel) != ""
-			if tf.compilable && !skipped {
+			if tf.compilable && !skipped && !tf.either {
 				want += len(tf.lines)
+			}
+			if tf.either && !skipped {
+				continue
 			}
 			if !tf.compilable || skipped {
 				name := rel
@@ -496,7 +510,7 @@ func runC16(t *vs.Tape, cfg map[string]string) (res vs.Result) {
 		if fo.ErrorMessage != "" {
 			notAnalysed++
 			c.Inc("files_reported_with_error")
-			if !expectErr {
+			if !expectErr && !tf.either {
 				res.Violation = vs.Violationf("C16/unexpected-error", "analysable file %s reported with error %q", rel, fo.ErrorMessage)
 				return
 			}
@@ -606,7 +620,7 @@ func runC16Scanner(t *vs.Tape, cfg map[string]string) (res vs.Result) {
 	}
 	var rels []string
 	for rel, tf := range tr.files {
-		if tf.mustCollect && tf.compilable {
+		if tf.mustCollect && tf.compilable && !tf.either {
 			rels = append(rels, rel)
 		}
 	}
